@@ -15,15 +15,17 @@
 From DV Require Export Lib.Base Registry.RegTypes Spec.NamesSpec.
 Local Open Scope N_scope.
 
-(* Two places where the implementation is known to deviate from the text.
+(* One place where the implementation is known to deviate from the text.
    [literal] is the specification as written; [as_implemented] is the
-   specification with exactly these two exceptions switched on. *)
+   specification with exactly this exception switched on.
+   (A second one, F4b -- the per-connection limit also refused requests for names
+   the caller already held -- was repaired in the bus; the limit rule below is the
+   literal one in both variants.) *)
 Record variant := mkVariant {
-  v_jump : bool;          (* F4: a REPLACE_EXISTING requester that cannot replace goes to second place *)
-  v_limit_always : bool   (* F4b: the per-connection limit also refuses requests for names the caller already holds *)
+  v_jump : bool           (* F4: a REPLACE_EXISTING requester that cannot replace goes to second place *)
 }.
-Definition literal := mkVariant false false.
-Definition as_implemented := mkVariant true true.
+Definition literal := mkVariant false.
+Definition as_implemented := mkVariant true.
 
 Record sconn := mkSConn { sc_id : N; sc_active : bool; sc_sub : bool }.
 
@@ -188,7 +190,8 @@ Definition spec_step (v : variant) (s : sstate) (e : event) (ord : list key) : s
           else
             let k := KW name in
             let q := sget (s_names s) k in
-            if (s_limit s <=? held (s_names s) c) && (v_limit_always v || negb (queued c q))
+            (* the limit is on the names held: a request for a name the caller already holds adds none *)
+            if (s_limit s <=? held (s_names s) c) && negb (queued c q)
             then (s, [(c, MError ELimitsExceeded)])
             else
               let q' := request_queue v q c flags in
@@ -242,7 +245,7 @@ Fixpoint valid_advice (v : variant) (s : sstate) (h : list event) (adv : nat -> 
       valid_advice v (fst (spec_step v s e (adv i))) r adv (S i)
   end.
 
-(* where the two variants can differ: the situations of F4 and F4b *)
+(* where the two variants can differ: the situation of F4 *)
 Definition exception_trigger (s : sstate) (e : event) : bool :=
   match e with
   | EvRequest c name flags =>
@@ -250,11 +253,10 @@ Definition exception_trigger (s : sstate) (e : event) : bool :=
       | Some x =>
           sc_active x && requestable name &&
           (let q := sget (s_names s) (KW name) in
-           (match q with
-            | p :: _ => negb (is c p) && f_replace flags && negb (f_dnq flags) && negb (o_allow p)
-            | [] => false
-            end)
-           || ((s_limit s <=? held (s_names s) c) && queued c q))
+           match q with
+           | p :: _ => negb (is c p) && f_replace flags && negb (f_dnq flags) && negb (o_allow p)
+           | [] => false
+           end)
       | None => false
       end
   | _ => false
